@@ -63,7 +63,16 @@ template <class M> struct Runner {
     bool bos = false, fast = false;
     if (t.at(pos) == "B") { bos = true; ++pos; }
     if (t.at(pos) == "^") { fast = true; ++pos; }
-    RuleScore<M> rs(m, out);
+    // reuse = 1 / 2: the scorer has already scored another rule (left state complete, a score accumulated) and is handed
+    // the new rule through Reset(ChartState&) / Reset(); the API promises a scorer as good as new
+    ChartState scratch;
+    RuleScore<M> rs(m, reuse ? scratch : out);
+    if (reuse) {
+      rs.BeginSentence();
+      rs.Terminal(m.GetVocabulary().EndSentence());
+      rs.Finish();
+      if (reuse == 1) rs.Reset(out); else rs.Reset();
+    }
     if (bos) rs.BeginSentence();
     bool first = true;
     while (t.at(pos) != ")") {
@@ -78,8 +87,11 @@ template <class M> struct Runner {
       first = false;
     }
     ++pos;   // ")"
-    return rs.Finish();
+    float ret = rs.Finish();
+    if (reuse == 2) out = scratch;
+    return ret;
   }
+  int reuse = 0;
   float fragment(const std::vector<lm::WordIndex> &ws, ChartState &out) {
     RuleScore<M> rs(m, out);
     for (size_t i = 0; i < ws.size(); ++i) rs.Terminal(ws[i]);
@@ -97,6 +109,33 @@ template <class M> struct Runner {
     }
     if (ca.left.full) { aft.full = true; got += RevealAfter(m, cm.left, cm.right, aft, aft.length); }
     if (cb.left.full) { got += RevealBefore(m, bef, bef.length, true, cm.left, cm.right); }
+    std::ostringstream o;
+    o << std::hex << bits(got) << ' ' << bits(pf) << ' ' << bits(pb) << ' ' << bits(pm) << ' ' << bits(pa) << ' '
+      << std::dec << (unsigned)cm.left.length << ' ' << (cm.left.full ? 1 : 0) << ' ';
+    print_state(o, cm.right);
+    return o.str();
+  }
+  // scripted instalments (see the PX command): b<c>/B<c>, a<c>/A<c>, bF, aF
+  std::string partial_script(const std::vector<lm::WordIndex> &before, const std::vector<lm::WordIndex> &between, const std::vector<lm::WordIndex> &after,
+                             const std::vector<std::string> &script) {
+    std::vector<lm::WordIndex> all(before); all.insert(all.end(), between.begin(), between.end()); all.insert(all.end(), after.begin(), after.end());
+    ChartState cf, cb, cm, ca;
+    float pf = fragment(all, cf), pb = fragment(before, cb), pm = fragment(between, cm), pa = fragment(after, ca);
+    Right bef(cb.right); Left aft(ca.left); aft.full = false;
+    float got = 0.0;
+    unsigned sb = 0, sa = 0;
+    for (size_t i = 0; i < script.size(); ++i) {
+      const std::string &tok = script[i];
+      char k = tok[0];
+      if (tok.substr(1) == "F") {
+        if (k == 'b') { bef.length = cb.right.length; got += RevealBefore(m, bef, bef.length, true, cm.left, cm.right); }
+        else { aft.length = ca.left.length; aft.full = true; got += RevealAfter(m, cm.left, cm.right, aft, aft.length); }
+      } else {
+        unsigned c = atoi(tok.c_str() + 1);
+        if (k == 'b' || k == 'B') { bef.length = c; got += RevealBefore(m, bef, sb, k == 'B', cm.left, cm.right); sb = c; }
+        else { aft.length = c; aft.full = (k == 'A'); got += RevealAfter(m, cm.left, cm.right, aft, sa); sa = c; }
+      }
+    }
     std::ostringstream o;
     o << std::hex << bits(got) << ' ' << bits(pf) << ' ' << bits(pb) << ' ' << bits(pm) << ' ' << bits(pa) << ' '
       << std::dec << (unsigned)cm.left.length << ' ' << (cm.left.full ? 1 : 0) << ' ';
@@ -191,6 +230,14 @@ template <class M> int run(const char *file, const std::vector<std::string> &voc
         while (in >> x) { if (x == ";") parts.push_back(std::vector<lm::WordIndex>()); else parts.back().push_back(r.to_model.at(strtoul(x.c_str(), NULL, 16))); }
         if (parts.size() != 3) { std::cout << "?\n"; continue; }
         std::cout << r.partial(parts[0], parts[1], parts[2]) << '\n';
+      } else if (cmd == "PX") {
+        // PX before.. ; between.. ; after.. ; script..
+        std::vector<std::vector<std::string> > raw(1); std::string x;
+        while (in >> x) { if (x == ";") raw.push_back(std::vector<std::string>()); else raw.back().push_back(x); }
+        if (raw.size() != 4) { std::cout << "?\n"; continue; }
+        std::vector<std::vector<lm::WordIndex> > parts(3);
+        for (int i = 0; i < 3; ++i) for (size_t j = 0; j < raw[i].size(); ++j) parts[i].push_back(r.to_model.at(strtoul(raw[i][j].c_str(), NULL, 16)));
+        std::cout << r.partial_script(parts[0], parts[1], parts[2], raw[3]) << '\n';
       } else if (cmd == "SUB") {
         std::vector<std::vector<lm::WordIndex> > parts(1); std::string x;
         while (in >> x) { if (x == ";") parts.push_back(std::vector<lm::WordIndex>()); else parts.back().push_back(r.to_model.at(strtoul(x.c_str(), NULL, 16))); }
@@ -214,7 +261,8 @@ template <class M> int run(const char *file, const std::vector<std::string> &voc
         int c = a.Compare(b);
         std::cout << (a == b ? 1 : 0) << ' ' << (c < 0 ? '-' : c > 0 ? '+' : '0') << ' ' << (a < b ? 1 : 0)
                   << ' ' << (hash_value(a) == hash_value(b) ? 1 : 0) << '\n';
-      } else if (cmd == "C") {
+      } else if (cmd == "C" || cmd == "C1" || cmd == "C2") {
+        r.reuse = cmd == "C" ? 0 : cmd == "C1" ? 1 : 2;
         std::vector<std::string> toks; std::string x;
         while (in >> x) toks.push_back(x);
         size_t pos = 0;
